@@ -694,7 +694,7 @@ func c04Mesh3(kind string, payload []byte) string {
 		echo, err = m.udp(payload)
 	case "udpzero":
 		m.zeroKeys.Store(true)
-		echo, err = m.udpTries(payload, 2, 2*time.Second) // expected answer on a repaired tree is "no echo"
+		echo, err = m.udpTries(payload, 1, 2500*time.Millisecond) // expected answer on a repaired tree is "no echo"
 		m.zeroKeys.Store(false)
 	case "tcpclose":
 		echo, err = m.tcpclose(payload)
